@@ -64,7 +64,14 @@ impl Compiler {
 
             Statement::Labeled(labeled) => self.compile_labeled(labeled),
 
-            Statement::FunctionDeclaration(func) => self.compile_function_declaration(func),
+            Statement::FunctionDeclaration(func) => {
+                if self.hoisted_functions.contains(&func.span.start) {
+                    // already instantiated when the enclosing scope was entered
+                    Ok(())
+                } else {
+                    self.compile_function_declaration(func)
+                }
+            }
 
             Statement::ClassDeclaration(class) => self.compile_class_declaration(class),
 
@@ -142,11 +149,26 @@ impl Compiler {
     }
 
     /// Compile a block statement
+    /// Function declarations directly contained in a statement list are instantiated when
+    /// the scope is entered, so that they can be called before their position in the text.
+    pub(super) fn emit_hoisted_functions(&mut self, statements: &[Statement]) -> Result<(), JsError> {
+        for stmt in statements {
+            if let Statement::FunctionDeclaration(func) = stmt
+                && self.hoisted_functions.insert(func.span.start)
+            {
+                self.compile_function_declaration(func)?;
+            }
+        }
+        Ok(())
+    }
+
     fn compile_block(&mut self, block: &BlockStatement) -> Result<(), JsError> {
         self.builder.set_span(block.span);
 
         // Push a new scope
         self.builder.emit(Op::PushScope);
+
+        self.emit_hoisted_functions(&block.body)?;
 
         if block.body.is_empty() && self.track_completion {
             // Empty block has completion value undefined
@@ -948,6 +970,7 @@ impl Compiler {
                 // Empty catch block has completion value undefined
                 self.builder.emit(Op::LoadUndefined { dst: 0 });
             } else {
+                self.emit_hoisted_functions(&handler.body.body)?;
                 for stmt in handler.body.body.iter() {
                     self.compile_statement_impl(stmt)?;
                 }
@@ -983,6 +1006,7 @@ impl Compiler {
             self.builder.emit(Op::PushScope);
             // This statement's handler has been popped when the finally block runs
             self.try_depth -= 1;
+            self.emit_hoisted_functions(&finalizer.body)?;
             for stmt in finalizer.body.iter() {
                 self.compile_statement_impl(stmt)?;
             }
